@@ -31,7 +31,7 @@ ASSUMPTIONS = [
     'a leading ~ in an evaluated !path value is expanded with the simulated HOME before comparison (path nodes document that they do not expand it)',
 ]
 TIERS = {
-    'quick': {'runs': 500, 'wall_cap': 75, 'chunk': 8, 'min_budget': 50, 'min_each': 25},
+    'quick': {'runs': 900, 'wall_cap': 75, 'chunk': 8, 'min_budget': 50, 'min_each': 25},
     'thorough': {'runs': 20000, 'wall_cap': 900, 'chunk': 16, 'min_budget': 200, 'min_each': 60},
 }
 CWD = '/w'
